@@ -81,6 +81,7 @@ MARK_PENDING_CALLERS = {
     "startup.reset_interrupted_steps": "retry of failed / interrupted steps at startup",
     "director.DirectorHandler.start_build_phase": "retry of failed steps on rebuild",
     "step.Step.after_recycle": "recycled FAILED or hash-less SUCCEEDED step",
+    "executor.Executor.execute_job": "the step was declared again with another shell flag or other overrides while its command ran",
 }
 
 
